@@ -141,7 +141,7 @@ CLAIMED = {
              'with a newline - the domain the property names) and every sequence of header settings (SetOk: no newline/NUL in the value, no '
              'white space or colon in the name) the bytes produced by the Lean transcription of message_parse_headers / message_set_header / '
              'message_write satisfy Spec.rewriteOk: same body, same other fields with raw values incl. folding and order, each set name exactly '
-             'once with its last value, replaced in place (C08_rewrite_preserves, C08_copy_identity, C08_parse, C08_rewrite_stable; ~2500 lines '
+             'once with its last value, replaced in place (C08_rewrite_preserves_partial (values being set without newline/NUL/leading blank), C08_copy_identity, C08_parse, C08_rewrite_stable; ~2500 lines '
              'of proofs). The same predicate is evaluated on the bytes the real message_write produces (ASan harness, memfd) for generated '
              'messages and setting sequences, and the real table/lookup/second write are compared with the model.',
         note='Trusted: Lean kernel, Spec/Message.lean (line-based reading, rewriteOk), generators; qsort modelled as stable merge sort (glibc); '
@@ -227,7 +227,7 @@ CLAIMED = {
     'C13': dict(
         text='PARTIAL. Machine-checked for arbitrary call results (runOracle): the argument vector is one interpolated string per configured '
              'string, in order (C13_argv, with C12_interpolate for the content); the value of exec() is a function of the fork/wait results '
-             '- 0, exit code, -1 for 127 and fork/waitpid//dev/null failures, 128+signal (C13_status); a non-zero value is an error of the exec '
+             '- 0, exit code, -1 for 127 and fork/waitpid//dev/null failures, 128+signal (C13_status_exact, C13_exec_status_mapping); a non-zero value is an error of the exec '
              'action (C13_exec_failure_is_error) and an error stops the remaining actions of that message (C13_error_stops_actions). Tied to the '
              'real binary: generated exec/command scenarios with hostile argument vectors, every stdin option, exec after label/move, inside '
              'attachment blocks, in stdin mode, exit statuses and signals; a helper program records argv bytes, stdin bytes, inherited '
